@@ -62,7 +62,27 @@ def ts_arg(ts):
             _MEM["mem2"] = (X[::2].copy(), y[::2].copy())
         X, y = _MEM[ts]
         return (X.copy(), y.copy())
+    if ts == "mem1-kept":
+        # a caller who loads the training set once and hands the very same
+        # tuple to every rating of one history
+        if "t" not in _KEPT:
+            X, y = ts_arg("mem1")
+            _KEPT["t"] = (X, y)
+        return _KEPT["t"]
     return ts
+
+
+# the tuple behind "mem1-kept"; emptied when a history starts
+_KEPT = {}
+
+
+def kept_digest():
+    if "t" not in _KEPT:
+        return None
+    import hashlib
+    X, y = _KEPT["t"]
+    return hashlib.sha1(np.ascontiguousarray(X).tobytes()
+                        + np.ascontiguousarray(y).tobytes()).hexdigest()[:12]
 
 
 _RATERS = {}
@@ -78,7 +98,8 @@ def standalone_rater(reg, ts, names, lda):
     if key not in _RATERS:
         reg_cl, kw = state.pristine("nanite.rate.regressors",
                                     "reg_dict")[reg]
-        tsp = ts_arg(ts)
+        # (equal values in untouched arrays for the kept tuple)
+        tsp = ts_arg("mem1" if ts == "mem1-kept" else ts)
         if isinstance(tsp, tuple):
             X, y = tsp
         else:
@@ -218,6 +239,7 @@ class Driver(hist.Driver):
 
     def fresh(self):
         ensure_user_ts()
+        _KEPT.clear()
         tr = synth.truth_params("hertz_para", E=3000.0, contact_point=2e-7,
                                 baseline=1e-10)
         idnt = synth.make_curve("hertz_para", tr, n_app=self.n_app,
@@ -245,7 +267,9 @@ class Driver(hist.Driver):
         return ops.apply_op(idnt, op)
 
     def canon(self, idnt):
-        return cn.indent_canon(idnt)
+        c = cn.indent_canon(idnt)
+        kd = kept_digest()
+        return c if kd is None else c + ":" + kd
 
     def pre_info(self, idnt, op):
         return {"canon_norating": cn.indent_canon(idnt, with_rating=False)}
@@ -285,12 +309,35 @@ class LongFitted(Driver):
            rating_op("Decision Tree"),
            rating_op("Decision Tree", "user", NAMES_B, True),
            rating_op("Extra Trees", "mem1"),
-           rating_op("Extra Trees", "mem2")]
+           rating_op("Extra Trees", "mem2"),
+           rating_op("SVR (RBF kernel)", "mem1-kept"),
+           rating_op("Extra Trees", "mem1-kept")]
 
     def fresh(self):
         idnt = super().fresh()
         idnt.apply_preprocessing(list(P1))
         idnt.fit_model(model_key="hertz_para")
+        return idnt
+
+
+class LongPlateau(Driver):
+    """starts from a preprocessed curve fitted with the modulus-plateau
+    search; refits that change only settings of the search (number of
+    samples, upper boundary) between the ratings"""
+    name = "long_plateau"
+    ops = [["F", {"optimal_fit_num_samples": 30}],
+           ["F", {"optimal_fit_num_samples": 10}],
+           ["F", {"range_x": [0, 6e-7]}],
+           ["F", {"optimal_fit_edelta": False}],
+           # (on this curve the shipped training set tells these fits apart)
+           rating_op("Extra Trees"),
+           rating_op("Random Forest")]
+
+    def fresh(self):
+        idnt = super().fresh()
+        idnt.apply_preprocessing(list(P1))
+        idnt.fit_model(model_key="hertz_para", optimal_fit_edelta=True,
+                       optimal_fit_num_samples=10)
         return idnt
 
 
@@ -324,6 +371,7 @@ class Recorded(Driver):
 
 
 DRIVERS = {d.name: d() for d in (Driver, Short, ShortReject, LongFitted,
+                                 LongPlateau,
                                  Recorded)}
 
 # representative curve states for the full sweep: (driver, history of ops)
@@ -472,9 +520,9 @@ def run(tier):
             cwd=VERIF_ROOT, stdout=subprocess.PIPE, stderr=subprocess.PIPE,
             text=True))
     plan = {"quick": [("long", 3), ("short", 2), ("short_reject", 4),
-                      ("long_fitted", 3)],
+                      ("long_fitted", 3), ("long_plateau", 3)],
             "thorough": [("long", 4), ("short", 3), ("short_reject", 6),
-                         ("long_fitted", 5),
+                         ("long_fitted", 5), ("long_plateau", 5),
                          ("recorded", 3)]}[tier]
     ratings = set()
     for name, depth in plan:
